@@ -151,6 +151,10 @@ func (e *c18Env) userOp(step string, fn func() error) error {
 			return fmt.Errorf("violation: %s fails again after the storage fault is gone: %v (first failure: %v)", step, err, first)
 		}
 		e.logf("%s failed: %v -- repeating", step, err)
+		// an operation that reported failure must not go on in the background: whatever it may have
+		// queued runs before the repetition
+		e.wd.W.WorkerIdle(20 * time.Second)
+		e.wd.W.Quiesce(20 * time.Second)
 	}
 	return fmt.Errorf("violation: %s still fails after 12 attempts (first failure: %v)", step, first)
 }
